@@ -4,40 +4,66 @@ C20 — Temporary file names are unique within a process under concurrent use.
   "However many threads request temporary file names at the same time, no two calls in one process ever
    receive the same path, and every returned path contains the caller's name part."
 
-Property theorems only (helper lemmas live in Proofs/Atomic.lean).  Quantifiers: every number of threads,
-EVERY schedule (a schedule is any list of thread indices; each entry lets that thread execute the next
-access of its current `temp_file_name` call, so all interleavings of any number of calls are covered;
-entries naming a non-existent thread are no-ops).
+Property theorems only (helper lemmas live in Proofs/Atomic.lean and Proofs/NameFmt.lean).  Quantifiers: every
+number of threads, EVERY schedule (a schedule is any list of thread indices; each entry lets that thread execute
+the next access of its current `temp_file_name` call, so all interleavings of any number of calls are covered;
+entries naming a non-existent thread are no-ops), every process id, and EVERY assignment of name parts to the
+completed calls (`partOf : Nat → List Char`, call index in completion order ↦ the `name_part` of that call; or a
+list of parts of the right length).  Name parts are arbitrary character lists: they may contain underscores and
+digits, be empty, or be equal for all calls.
 
-The program whose interleavings are quantified over is not hand-written: `Generated.tempNameOps` is the list
-of accesses to `TEMP_FILE_COUNTER` extracted from the body of `serialize::temp_file_name` on every run,
-`Generated.tempNameResultOp` is the access whose result is formatted into the name, and
-`Generated.tempNameUsesPart` / `tempNameUsesPid` / `tempNameFormat` describe the `format!` call.  The two
-obligations `program_is_single_rmw` and `name_contains_part` are re-checked by `decide` against whatever
-the source says now; if somebody replaces the `fetch_add` by a load and a store they fail (and
-`load_then_store_duplicates` shows the resulting duplicate).
+Nothing about the program is hand-written: `Generated.tempNameOps` is the list of accesses to
+`TEMP_FILE_COUNTER` extracted from the body of `serialize::temp_file_name` on every run,
+`Generated.tempNameResultOp` is the access whose result is formatted into the name,
+`Generated.tempNameFormatChars` is the `format!` string and `Generated.tempNameArgs` the kinds of its arguments.
+The obligations `program_is_single_rmw`, `result_op_is_first`, `name_contains_part` and `format_is_part_pid_counter`
+are re-checked by `decide` against whatever the source says now; if somebody replaces the `fetch_add` by a load
+and a store, or changes the format string or the argument order, they fail (`load_then_store_duplicates` and
+`unseparated_format_collides` show what then goes wrong).
 
 FULL intended statement:
    for all thread counts and all interleavings, the PATHS returned by all calls in one process are pairwise
    distinct, and each path contains the `name_part` argument of its call.
-What is proven (`…_partial` names below): the COUNTER VALUES formatted into the paths are pairwise
-distinct, strictly increasing in completion order and contiguous from the initial value, for all thread
-counts and all schedules of the generated program; and the format call uses the caller's name part.
-What is missing, precisely:
+What is proven:
+   * `names_unique`, `no_two_calls_share_a_name`, `names_unique_of_parts`: for all thread counts, all schedules,
+     all process ids and all assignments of name parts, the rendered file NAME TEXTS
+     `name_part ++ "_" ++ dec(pid) ++ "_" ++ dec(count)` of the completed calls are pairwise distinct;
+   * `paths_unique`, `no_two_calls_share_a_path`: the same for the PATH TEXTS `d_i ++ name_i`, where `d_i` is ANY
+     text put in front of the name of call `i` (so the directory need not even be the same for all calls);
+   * `every_name_contains_its_part`, `every_path_contains_its_part`, `name_of_call`: each text contains the name
+     part of its call as a contiguous infix (`<:+:`); the `i`-th completed call receives exactly
+     `partOf i ++ "_" ++ dec(pid) ++ "_" ++ dec(i)`;
+   * `one_name_per_call`: one text per completed call (so the statements are about all of them);
+   * string formatting is MODELLED (Model/Atomic.lean `renderFmt`, `decDigits`) and item (2) of the previous
+     version of this file is now a theorem: `decimal_digits_only`, `decimal_injective`, `name_text_shape`,
+     `name_text_determines_counter`, `name_text_determines_arguments`, `path_text_determines_counter`;
+   * the intermediate statements about the COUNTER VALUES handed to the calls (`counters_unique`, …): pairwise
+     distinct, strictly increasing in completion order and contiguous from 0.
+Naming: the theorems of the previous version carried the suffix `_partial` because the step from counters to
+paths was missing.  It has been dropped everywhere (old `names_unique_partial` is now `counters_unique`, and
+similarly `no_two_calls_share_a_counter`, `no_duplicating_schedule`, `counters_strictly_increasing`,
+`one_counter_per_call`, `counters_contiguous`, `counter_counts_calls`), because everything that remains assumed
+is about the RUNTIME, not about the code of the crate:
   (1) atomicity and sequential consistency of `AtomicUsize::fetch_add(1, SeqCst)` are the semantics of
       Model/Atomic.lean (`execOp`, `stepThread`: one access = one indivisible step, one global order);
       that is the contract of the Rust/C++11 memory model, assumed, not proven;
-  (2) the step from distinct counters to distinct paths: the path is
-      `temp_dir().join(format!("{}_{}_{}", name_part, process::id(), count))`; string formatting is not
-      modelled.  Assumption used: for a fixed process id, decimal formatting of `count` as the LAST
-      underscore-separated component is injective in `count` whatever `name_part` is (the last component
-      is recovered by splitting at the last '_', and decimal notation without leading zeros is injective),
-      and the formatted string contains its first argument literally;
-  (3) the counter is a mathematical natural number: wrap-around of the `usize` after 2^64 calls in one
-      process is not modelled (a process performing 2^64 calls is out of reach);
-  (4) uniqueness across processes is not claimed by the property (it rests on `process::id()`).
+  (2) the returned `PathBuf` is `env::temp_dir()` with the name `push`ed.  Assumed about `std`: the text of
+      the result is `d ++ name` for some text `d` (on Unix `push` appends a separator if needed and then the
+      name, or — if the name is absolute, i.e. `name_part` starts with '/' — replaces the buffer by the name,
+      `d = ""`).  With this, `paths_unique` needs NO assumption that `temp_dir()` returns the same directory for all
+      calls.  (The weaker reading "the path is `temp_dir().join(name)` for one fixed directory, and joining a fixed
+      directory is injective" is the special case `dirOf = fun _ => dir ++ "/"`.)  `Display` for `u32`/`usize`
+      prints decimal digits without leading zeros (`decDigits`); the name part is rendered literally;
+  (3) the counter is a mathematical natural number here, in the source a `usize` that wraps.  With a 64-bit
+      counter the values of the first 2^64 completed calls are below 2^64 and unchanged by `% 2^64`
+      (`wrapped_counters_unchanged`), so all statements hold for schedules with at most 2^64 completed calls
+      (`names_unique_wrapping`); the call after that would repeat the first counter (`wrap_repeats_first`).
+      A process performing 2^64 calls is out of reach;
+  (4) uniqueness across processes is not claimed by the property (it rests on `process::id()`; the name does
+      determine the pid: `name_text_determines_arguments`).
 -/
 import Sds.Proofs.Atomic
+import Sds.Proofs.NameFmt
 import Sds.Generated.TempName
 
 namespace Sds.C20
@@ -53,23 +79,105 @@ theorem program_is_single_rmw :
 /-- the access whose result is formatted into the name is the first (only) one -/
 theorem result_op_is_first : Generated.tempNameResultOp = some 0 := by decide
 
-/-- every returned path contains the caller's name part (and the process id): both are arguments of the
-`format!` that builds the file name, whose shape is `{}_{}_{}` with the counter last -/
+/-- both the caller's name part and the process id are arguments of the `format!` that builds the file name,
+whose shape is `{}_{}_{}` -/
 theorem name_contains_part :
     Generated.tempNameUsesPart = true ∧ Generated.tempNameUsesPid = true ∧
       Generated.tempNameFormat = "{}_{}_{}" := by decide
 
-/-! ### uniqueness under every schedule -/
+/-- the format string, character by character, is `{}_{}_{}` and its arguments are, in this order, the name
+part, the process id and the counter value -/
+theorem format_is_part_pid_counter :
+    Generated.tempNameFormatChars = ['{', '}', '_', '{', '}', '_', '{', '}'] ∧
+      Generated.tempNameArgs = [NameArg.part, NameArg.pid, NameArg.counter] := by decide
 
-/-- **Headline.**  For every number of threads and every schedule, the counter values handed out to the
-calls of the generated program are pairwise distinct. -/
-theorem names_unique_partial (nthreads : Nat) (sched : List Nat) :
+/-! ### the texts -/
+
+/-- the file name `temp_file_name` builds for name part `part` in process `pid` from counter value `c`:
+the GENERATED format string rendered with the GENERATED argument list -/
+def nameText (part : List Char) (pid c : Nat) : List Char :=
+  tempFileNameText Generated.tempNameFormatChars Generated.tempNameArgs part pid c
+
+/-- the names of the completed calls, in completion order: call `i` was made with name part `partOf i` and
+received the counter value `cs[i]` -/
+def renderedNames (partOf : Nat → List Char) (pid : Nat) (cs : List Nat) : List (List Char) :=
+  cs.mapIdx fun i c => nameText (partOf i) pid c
+
+/-- the path texts: the name of call `i` preceded by an arbitrary text `dirOf i` (the temporary directory and a
+separator; nothing if the name is absolute) -/
+def renderedPaths (dirOf partOf : Nat → List Char) (pid : Nat) (cs : List Nat) : List (List Char) :=
+  cs.mapIdx fun i c => dirOf i ++ nameText (partOf i) pid c
+
+theorem nameText_eq (part : List Char) (pid c : Nat) :
+    nameText part pid c = tempFileNameText NameFmt.fmt3 NameFmt.args3 part pid c := by
+  unfold nameText
+  rw [format_is_part_pid_counter.1, format_is_part_pid_counter.2]
+  rfl
+
+/-! ### formatting: decimal notation and the shape of the name (former missing item (2)) -/
+
+/-- decimal notation consists of the digits '0'..'9' only — in particular it contains no underscore — and is
+never empty -/
+theorem decimal_digits_only (n : Nat) :
+    (∀ ch ∈ decDigits n, '0' ≤ ch ∧ ch ≤ '9' ∧ ch.isDigit = true ∧ ch ≠ '_') ∧ decDigits n ≠ [] :=
+  ⟨fun ch h =>
+      have hd := NameFmt.decDigits_isDig n ch h
+      ⟨hd.le_chars.1, hd.le_chars.2, hd.isDigit, hd.ne_underscore⟩,
+    NameFmt.decDigits_ne_nil n⟩
+
+/-- decimal notation is injective, for numbers of any size (`NameFmt.ofDigits` is a left inverse; the fuel
+`n + 1` of `decDigits` always suffices: `NameFmt.decDigits_eq_digs`) -/
+theorem decimal_injective (a b : Nat) (h : decDigits a = decDigits b) : a = b :=
+  NameFmt.decDigits_injective h
+
+theorem decimal_left_inverse (n : Nat) : NameFmt.ofDigits (decDigits n) = n :=
+  NameFmt.ofDigits_decDigits n
+
+/-- the name is `part_pid_count` -/
+theorem name_text_shape (part : List Char) (pid c : Nat) :
+    nameText part pid c = part ++ '_' :: (decDigits pid ++ '_' :: decDigits c) := by
+  rw [nameText_eq]; exact NameFmt.name_shape part pid c
+
+/-- **Injectivity in the counter**, for ALL name parts (they may contain '_' and digits) and one process id:
+the text after the last underscore is the counter -/
+theorem name_text_determines_counter (part part' : List Char) (pid c c' : Nat)
+    (h : nameText part pid c = nameText part' pid c') : c = c' := by
+  rw [nameText_eq, nameText_eq] at h
+  exact NameFmt.name_injective_counter part part' pid c c' h
+
+/-- more: the name determines all three arguments -/
+theorem name_text_determines_arguments (part part' : List Char) (pid pid' c c' : Nat)
+    (h : nameText part pid c = nameText part' pid' c') : part = part' ∧ pid = pid' ∧ c = c' := by
+  rw [nameText_eq, nameText_eq] at h
+  exact NameFmt.name_injective part part' pid pid' c c' h
+
+/-- and the counter is determined even when arbitrary texts precede the names -/
+theorem path_text_determines_counter (d d' part part' : List Char) (pid pid' c c' : Nat)
+    (h : d ++ nameText part pid c = d' ++ nameText part' pid' c') : c = c' := by
+  rw [nameText_eq, nameText_eq] at h
+  exact NameFmt.counter_of_prefixed_name d d' part part' pid pid' c c' h
+
+/-- **Containment**: the name part occurs in the name (at the front), and in every text ending with the name -/
+theorem name_text_contains_part (part : List Char) (pid c : Nat) :
+    part <+: nameText part pid c ∧ part <:+: nameText part pid c := by
+  rw [nameText_eq]
+  exact ⟨NameFmt.part_prefix_name part pid c, NameFmt.part_infix_name part pid c⟩
+
+theorem path_text_contains_part (d part : List Char) (pid c : Nat) :
+    part <:+: d ++ nameText part pid c := by
+  rw [nameText_eq]; exact NameFmt.part_infix_prefixed_name d part pid c
+
+/-! ### counter values under every schedule -/
+
+/-- For every number of threads and every schedule, the counter values handed out to the calls of the
+generated program are pairwise distinct. -/
+theorem counters_unique (nthreads : Nat) (sched : List Nat) :
     (namesOf Generated.tempNameOps 0 nthreads sched).Nodup :=
   unique_of_isSingleRMW Generated.tempNameOps 0 program_is_single_rmw nthreads sched
 
 /-- the same spelled out: two different completed calls (positions `i ≠ j` in completion order) never
 received the same value -/
-theorem no_two_calls_share_a_name_partial (nthreads : Nat) (sched : List Nat) (i j : Nat) (a : Nat)
+theorem no_two_calls_share_a_counter (nthreads : Nat) (sched : List Nat) (i j : Nat) (a : Nat)
     (hi : (namesOf Generated.tempNameOps 0 nthreads sched)[i]? = some a)
     (hj : (namesOf Generated.tempNameOps 0 nthreads sched)[j]? = some a) : i = j := by
   have hinc := List.pairwise_iff_getElem.1
@@ -83,22 +191,22 @@ theorem no_two_calls_share_a_name_partial (nthreads : Nat) (sched : List Nat) (i
   · have := hinc j i hj' hi' h; omega
 
 /-- the decidable form the driver replays: no schedule produces a duplicate -/
-theorem no_duplicating_schedule_partial (nthreads : Nat) (sched : List Nat) :
+theorem no_duplicating_schedule (nthreads : Nat) (sched : List Nat) :
     hasDup (namesOf Generated.tempNameOps 0 nthreads sched) = false :=
   no_dup_of_isSingleRMW Generated.tempNameOps 0 program_is_single_rmw nthreads sched
 
 /-- values are strictly increasing in completion order, under every schedule -/
-theorem names_strictly_increasing_partial (nthreads : Nat) (sched : List Nat) :
+theorem counters_strictly_increasing (nthreads : Nat) (sched : List Nat) :
     (namesOf Generated.tempNameOps 0 nthreads sched).Pairwise (· < ·) :=
   increasing_of_isSingleRMW Generated.tempNameOps 0 program_is_single_rmw nthreads sched
 
 /-- every scheduled step of an existing thread is one completed call and hands out one value … -/
-theorem one_name_per_call_partial (nthreads : Nat) (sched : List Nat) :
+theorem one_counter_per_call (nthreads : Nat) (sched : List Nat) :
     (namesOf Generated.tempNameOps 0 nthreads sched).length = (sched.filter (· < nthreads)).length :=
   single_rmw_length 1 nthreads sched
 
 /-- … and the values are contiguous: the `i`-th completed call received exactly `i` -/
-theorem names_contiguous_partial (nthreads : Nat) (sched : List Nat) (i : Nat)
+theorem counters_contiguous (nthreads : Nat) (sched : List Nat) (i : Nat)
     (hi : i < (namesOf Generated.tempNameOps 0 nthreads sched).length) :
     (namesOf Generated.tempNameOps 0 nthreads sched)[i]? = some i := by
   have := single_rmw_get 1 nthreads sched i hi
@@ -106,12 +214,141 @@ theorem names_contiguous_partial (nthreads : Nat) (sched : List Nat) (i : Nat)
   exact this
 
 /-- the shared counter ends at the number of names handed out: no update is lost -/
-theorem counter_counts_calls_partial (nthreads : Nat) (sched : List Nat) :
+theorem counter_counts_calls (nthreads : Nat) (sched : List Nat) :
     (runSchedule Generated.tempNameOps 0 nthreads sched).counter =
       (namesOf Generated.tempNameOps 0 nthreads sched).length := by
   have := single_rmw_counter 1 nthreads sched
   rw [Nat.one_mul] at this
   exact this
+
+/-! ### the property, on texts -/
+
+/-- **Headline (names).**  For every number of threads, every schedule, every process id and every assignment
+of name parts to the completed calls, the file names received by the calls are pairwise distinct. -/
+theorem names_unique (nthreads : Nat) (sched : List Nat) (partOf : Nat → List Char) (pid : Nat) :
+    (renderedNames partOf pid (namesOf Generated.tempNameOps 0 nthreads sched)).Nodup :=
+  NameFmt.nodup_mapIdx _ _ (counters_unique nthreads sched)
+    (fun i j a b h => name_text_determines_counter (partOf i) (partOf j) pid a b h)
+
+/-- **Headline (paths).**  The same for the path texts, whatever text precedes the name of each call. -/
+theorem paths_unique (nthreads : Nat) (sched : List Nat) (dirOf partOf : Nat → List Char) (pid : Nat) :
+    (renderedPaths dirOf partOf pid (namesOf Generated.tempNameOps 0 nthreads sched)).Nodup :=
+  NameFmt.nodup_mapIdx _ _ (counters_unique nthreads sched)
+    (fun i j a b h => path_text_determines_counter (dirOf i) (dirOf j) (partOf i) (partOf j) pid pid a b h)
+
+/-- one name and one path per completed call: the lists above cover all of them -/
+theorem one_name_per_call (nthreads : Nat) (sched : List Nat) (dirOf partOf : Nat → List Char) (pid : Nat) :
+    (renderedNames partOf pid (namesOf Generated.tempNameOps 0 nthreads sched)).length
+        = (sched.filter (· < nthreads)).length ∧
+    (renderedPaths dirOf partOf pid (namesOf Generated.tempNameOps 0 nthreads sched)).length
+        = (sched.filter (· < nthreads)).length := by
+  simp only [renderedNames, renderedPaths, List.length_mapIdx]
+  exact ⟨one_counter_per_call nthreads sched, one_counter_per_call nthreads sched⟩
+
+/-- spelled out: two different completed calls never received the same name … -/
+theorem no_two_calls_share_a_name (nthreads : Nat) (sched : List Nat) (partOf : Nat → List Char) (pid : Nat)
+    (i j : Nat) (t : List Char)
+    (hi : (renderedNames partOf pid (namesOf Generated.tempNameOps 0 nthreads sched))[i]? = some t)
+    (hj : (renderedNames partOf pid (namesOf Generated.tempNameOps 0 nthreads sched))[j]? = some t) : i = j := by
+  simp only [renderedNames, List.getElem?_mapIdx, Option.map_eq_some_iff] at hi hj
+  obtain ⟨a, ha, hat⟩ := hi
+  obtain ⟨b, hb, hbt⟩ := hj
+  have hab : a = b := name_text_determines_counter _ _ pid a b (hat.trans hbt.symm)
+  subst hab
+  exact no_two_calls_share_a_counter nthreads sched i j a ha hb
+
+/-- … nor the same path -/
+theorem no_two_calls_share_a_path (nthreads : Nat) (sched : List Nat) (dirOf partOf : Nat → List Char)
+    (pid : Nat) (i j : Nat) (t : List Char)
+    (hi : (renderedPaths dirOf partOf pid (namesOf Generated.tempNameOps 0 nthreads sched))[i]? = some t)
+    (hj : (renderedPaths dirOf partOf pid (namesOf Generated.tempNameOps 0 nthreads sched))[j]? = some t) : i = j := by
+  simp only [renderedPaths, List.getElem?_mapIdx, Option.map_eq_some_iff] at hi hj
+  obtain ⟨a, ha, hat⟩ := hi
+  obtain ⟨b, hb, hbt⟩ := hj
+  have hab : a = b := path_text_determines_counter _ _ _ _ pid pid a b (hat.trans hbt.symm)
+  subst hab
+  exact no_two_calls_share_a_counter nthreads sched i j a ha hb
+
+/-- **Containment.**  Every name contains the name part of its call … -/
+theorem every_name_contains_its_part (nthreads : Nat) (sched : List Nat) (partOf : Nat → List Char) (pid : Nat)
+    (i : Nat) (t : List Char)
+    (hi : (renderedNames partOf pid (namesOf Generated.tempNameOps 0 nthreads sched))[i]? = some t) :
+    partOf i <:+: t := by
+  simp only [renderedNames, List.getElem?_mapIdx, Option.map_eq_some_iff] at hi
+  obtain ⟨a, _, hat⟩ := hi
+  rw [← hat]
+  exact (name_text_contains_part (partOf i) pid a).2
+
+/-- … and so does every path -/
+theorem every_path_contains_its_part (nthreads : Nat) (sched : List Nat) (dirOf partOf : Nat → List Char)
+    (pid : Nat) (i : Nat) (t : List Char)
+    (hi : (renderedPaths dirOf partOf pid (namesOf Generated.tempNameOps 0 nthreads sched))[i]? = some t) :
+    partOf i <:+: t := by
+  simp only [renderedPaths, List.getElem?_mapIdx, Option.map_eq_some_iff] at hi
+  obtain ⟨a, _, hat⟩ := hi
+  rw [← hat]
+  exact path_text_contains_part (dirOf i) (partOf i) pid a
+
+/-- exactly: the `i`-th completed call receives `partOf i ++ "_" ++ dec pid ++ "_" ++ dec i` -/
+theorem name_of_call (nthreads : Nat) (sched : List Nat) (partOf : Nat → List Char) (pid : Nat) (i : Nat)
+    (hi : i < (sched.filter (· < nthreads)).length) :
+    (renderedNames partOf pid (namesOf Generated.tempNameOps 0 nthreads sched))[i]?
+      = some (partOf i ++ '_' :: (decDigits pid ++ '_' :: decDigits i)) := by
+  rw [← one_counter_per_call nthreads sched] at hi
+  simp only [renderedNames, List.getElem?_mapIdx, counters_contiguous nthreads sched i hi, Option.map_some,
+    name_text_shape]
+
+/-- the same property with the name parts given as a list `parts` with one entry per completed call: the names
+are pairwise distinct, there is one per call, and the `i`-th contains `parts[i]` -/
+theorem names_unique_of_parts (nthreads : Nat) (sched : List Nat) (parts : List (List Char)) (pid : Nat)
+    (hlen : parts.length = (sched.filter (· < nthreads)).length) :
+    let names := List.zipWith (fun p c => nameText p pid c) parts (namesOf Generated.tempNameOps 0 nthreads sched)
+    names.Nodup ∧ names.length = (sched.filter (· < nthreads)).length ∧
+      ∀ (i : Nat) (p t : List Char), parts[i]? = some p → names[i]? = some t → p <:+: t := by
+  intro names
+  refine ⟨?_, ?_, ?_⟩
+  · exact NameFmt.nodup_zipWith _ _ _ (counters_unique nthreads sched)
+      (fun p q a b h => name_text_determines_counter p q pid a b h)
+  · simp only [names, List.length_zipWith, one_counter_per_call nthreads sched, hlen, Nat.min_self]
+  · intro i p t hp ht
+    simp only [names, List.getElem?_zipWith, hp] at ht
+    cases hc : (namesOf Generated.tempNameOps 0 nthreads sched)[i]? with
+    | none => rw [hc] at ht; simp at ht
+    | some c =>
+      rw [hc] at ht
+      simp only [Option.some.injEq] at ht
+      rw [← ht]
+      exact (name_text_contains_part p pid c).2
+
+/-! ### the bounded counter -/
+
+/-- with a 64-bit counter nothing changes as long as at most 2^64 calls complete: all values handed out are
+below 2^64 and therefore unchanged by the reduction `% 2^64` that `fetch_add` on a `usize` performs -/
+theorem wrapped_counters_unchanged (nthreads : Nat) (sched : List Nat)
+    (h : (sched.filter (· < nthreads)).length ≤ 2 ^ 64) :
+    (namesOf Generated.tempNameOps 0 nthreads sched).map (· % 2 ^ 64)
+      = namesOf Generated.tempNameOps 0 nthreads sched := by
+  apply NameFmt.map_mod_eq_self
+  intro c hc
+  obtain ⟨i, hi, hci⟩ := List.getElem_of_mem hc
+  have hget := counters_contiguous nthreads sched i hi
+  rw [List.getElem?_eq_getElem hi, hci, Option.some.injEq] at hget
+  rw [one_counter_per_call nthreads sched] at hi
+  omega
+
+/-- hence the headline holds with the wrapped counter values for all such schedules -/
+theorem names_unique_wrapping (nthreads : Nat) (sched : List Nat) (dirOf partOf : Nat → List Char) (pid : Nat)
+    (h : (sched.filter (· < nthreads)).length ≤ 2 ^ 64) :
+    (renderedNames partOf pid ((namesOf Generated.tempNameOps 0 nthreads sched).map (· % 2 ^ 64))).Nodup ∧
+    (renderedPaths dirOf partOf pid ((namesOf Generated.tempNameOps 0 nthreads sched).map (· % 2 ^ 64))).Nodup := by
+  rw [wrapped_counters_unchanged nthreads sched h]
+  exact ⟨names_unique nthreads sched partOf pid, paths_unique nthreads sched dirOf partOf pid⟩
+
+/-- … and not beyond: the call after 2^64 completed ones would be handed the first counter value again, hence,
+for the same name part, the same name -/
+theorem wrap_repeats_first (part : List Char) (pid : Nat) :
+    nameText part pid (2 ^ 64 % 2 ^ 64) = nameText part pid 0 := by
+  rw [Nat.mod_self]
 
 /-! ### the general theorems the instantiation rests on (any positive increment) -/
 
@@ -127,7 +364,7 @@ theorem unique_whenever_obligation_holds (prog : List AOp) (r : Nat)
     (namesOf prog r nthreads sched).Nodup :=
   unique_of_isSingleRMW prog r h nthreads sched
 
-/-! ### why the obligation is needed -/
+/-! ### why the obligations are needed -/
 
 /-- a counter read and written in two separate accesses hands the same value to two threads: two threads,
 schedule `0 1 0 1` (both load 0, both store 1) — both calls get name 0 -/
@@ -137,10 +374,43 @@ theorem load_then_store_duplicates :
     isSingleRMW [.load, .storeRegPlus 1] (some 0) = false :=
   ⟨load_store_duplicates_names, load_store_not_nodup, by decide⟩
 
+/-- without the separators distinct counters do not give distinct names: with the format `{}{}{}`, process 1,
+the calls ("a", counter 11) and ("a1", counter 1) both receive `a111` -/
+theorem unseparated_format_collides :
+    tempFileNameText ['{', '}', '{', '}', '{', '}'] [.part, .pid, .counter] ['a'] 1 11
+      = tempFileNameText ['{', '}', '{', '}', '{', '}'] [.part, .pid, .counter] ['a', '1'] 1 1 := by decide
+
 /-! ### non-vacuity -/
 
 /-- three threads, an interleaved schedule of seven calls: seven names are handed out, 0..6 -/
 example : namesOf Generated.tempNameOps 0 3 [2, 0, 1, 1, 0, 2, 2] = [0, 1, 2, 3, 4, 5, 6] := by decide
 example : (6 : Nat) < (namesOf Generated.tempNameOps 0 3 [2, 0, 1, 1, 0, 2, 2]).length := by decide
+
+/-- a rendered name -/
+example : nameText "example".toList 4242 17 = "example_4242_17".toList := by decide
+example : decDigits 0 = ['0'] ∧ decDigits 18446744073709551615 = "18446744073709551615".toList := by decide
+
+/-- name parts that try to imitate the other components: three calls, parts "x", "x_77" and "x_77_0", process 77.
+The names are `x_77_0`, `x_77_77_1`, `x_77_0_77_2`: distinct, although the first name is a prefix of the third
+and equals the third call's name part -/
+example :
+    renderedNames (fun i => if i = 0 then "x".toList else if i = 1 then "x_77".toList else "x_77_0".toList) 77
+        (namesOf Generated.tempNameOps 0 2 [1, 0, 1])
+      = ["x_77_0".toList, "x_77_77_1".toList, "x_77_0_77_2".toList] := by decide
+
+/-- paths: a relative and an absolute name part (the latter replaces the directory) -/
+example :
+    renderedPaths (fun i => if i = 0 then "/tmp/".toList else []) (fun i => if i = 0 then "a".toList else "/x/a".toList)
+        5 (namesOf Generated.tempNameOps 0 1 [0, 0])
+      = ["/tmp/a_5_0".toList, "/x/a_5_1".toList] := by decide
+
+/-- the hypotheses of the spelled-out forms are satisfiable: the second completed call has a name, and it
+contains its part -/
+example : (renderedNames (fun _ => "p".toList) 1 (namesOf Generated.tempNameOps 0 2 [1, 0, 1]))[1]?
+    = some "p_1_1".toList := by decide
+example : "p".toList <:+: "p_1_1".toList := ⟨[], "_1_1".toList, by decide⟩
+
+/-- the hypothesis of the bounded-counter statements is satisfiable -/
+example : ([1, 0, 1].filter (· < 2)).length ≤ 2 ^ 64 := by decide
 
 end Sds.C20
